@@ -541,8 +541,55 @@ func c20PublicAverage(c *h.Ctx) {
 	c.Case("average/public-wall-clock", in, true)
 }
 
+// c20dual: one statistics object of a connection, with a request counter AND a byte counter, handed to both meters.
+type c20dual struct{ req, bytes uint64 }
+
+func (s *c20dual) NbRequests() uint64 { return atomic.LoadUint64(&s.req) }
+func (s *c20dual) TotalBytes() uint64 { return atomic.LoadUint64(&s.bytes) }
+
+// c20DualSource: a request-rate meter and a bitrate meter over ONE source object whose two counters differ: each meter
+// reports the rate of the counter it is a meter of (public entry points, wall clock, bounds measured around the calls).
+func c20DualSource(c *h.Ctx) {
+	src := &c20dual{req: 7, bytes: 1000}
+	kr := kxps.NewKrps(nil, src)
+	kb := kxps.NewKbps(nil, src)
+	if err := kr.Start(); err != nil {
+		c.Hold(false, "average.public", "krps.Start", err.Error(), "nil")
+		return
+	}
+	defer kr.Close()
+	if err := kb.Start(); err != nil {
+		c.Hold(false, "average.public", "kbps.Start", err.Error(), "nil")
+		return
+	}
+	defer kb.Close()
+	lo0 := time.Now()
+	r0, b0 := kr.Average(), kb.Average()
+	hi0 := time.Now()
+	time.Sleep(50 * time.Millisecond)
+	atomic.StoreUint64(&src.req, 7+20)
+	atomic.StoreUint64(&src.bytes, 1000+50000000)
+	lo1 := time.Now()
+	r1, b1 := kr.Average(), kb.Average()
+	hi1 := time.Now()
+	within := func(a float64, inc float64, lo, hi time.Duration) bool {
+		msLo, msHi := float64(int64(lo/time.Millisecond)-1), float64(int64(hi/time.Millisecond)+1)
+		if msLo < 1 {
+			msLo = 1
+		}
+		return a >= inc*1000/msHi-1e-9 && a <= inc*1000/msLo+1e-9
+	}
+	in := "one source object with NbRequests() 7 -> 27 and TotalBytes() 1000 -> 50001000 over 50 ms, handed to NewKrps and to NewKbps; public Average() of both"
+	okR := within(r1, 20, lo1.Sub(hi0), hi1.Sub(lo0)+5*time.Millisecond)
+	okB := within(b1, 50000000.0*8/1000, lo1.Sub(hi0), hi1.Sub(lo0)+5*time.Millisecond)
+	c.Hold(r0 == 0 && b0 == 0 && okR && okB, "average.public", in, fmt.Sprintf("first reads %v %v; then requests/s=%v kbit/s=%v (elapsed %v)", r0, b0, r1, b1, hi1.Sub(lo0)),
+		"0 0, then 20/elapsed requests per second and 400000/elapsed kbit per second")
+	c.Case("average/public-dual-source", in, true)
+}
+
 func c20(c *h.Ctx) {
 	c20PublicAverage(c)
+	c20DualSource(c)
 	r := c.R
 
 	// 0. regression corpus: the repository's own scripted walk, and the boundary of the stated domain.
